@@ -666,7 +666,9 @@ def extras_ok(extra, status, allocfail=False):
     for s in status:
         bad.append({"!LEAK": "LeakSanitizer: memory leaked by this case",
                     "!EXIT1": "sanitizer report (AddressSanitizer / UBSan / leak at exit)",
-                    "!SIG6": "abort (failed assert)"}.get(s, "child process died: " + s))
+                    "!SIG6": "abort (failed assert)"}.get(s, ("%s block(s) allocated by the library are still live after a fatal event-loop "
+                                                             "error and the library's own exit handlers (leak)" % s[5:]) if s.startswith("!LIVE")
+                                                          else "child process died: " + s))
     for t in extra:
         if t.startswith("nfds=") and t != "nfds=0":
             bad.append("descriptors still registered with the event loop after cleanup: " + t)
